@@ -43,7 +43,7 @@ META = {
 
 def h_burst(ctx, burst, window, n_tries, faults, kinds, stale, seq0,
             via_send_scp=False, multi=False, seq_mask=None, untimed=False,
-            payload=b""):
+            payload=b"", then_again=False):
     from models.net import World, Patch, RC_OK
     from rig.machine_control import scp_connection as sc
     from rig.machine_control.scp_connection import (
@@ -106,6 +106,36 @@ def h_burst(ctx, burst, window, n_tries, faults, kinds, stale, seq0,
             ctx.observe("unexpected", type(e).__name__)
             ctx.prove(False, "burst-unexpected-exception", repr(e))
             return
+        again = None
+        if then_again:
+            # whatever way the first burst ended, a second burst on the same
+            # connection over a network that now behaves is a burst of its
+            # own: only its command is transmitted, its callback runs once
+            first_sent, first_now = list(world.sent), world.now
+            first_received = list(world.received)
+            first_marks = list(world.send_marks)
+            world.faults, world.prompt, world.timed = 0, True, False
+            del world.in_flight[:]
+            world.ready = []
+            second = []
+            try:
+                conn.send_scp_burst(256, window, iter([scpcall(
+                    1, 2, 3, 5, arg1=900, callback=second.append)]))
+                again = "ok"
+            except Exception as e:
+                again = type(e).__name__ + ": " + str(e)[:120]
+            extra = [struct.unpack_from("<I", d, 14)[0]
+                     for (_, d, _, _) in world.sent[len(first_sent):]]
+            ctx.observe("second burst", again, extra, len(second))
+            ctx.witness("second-burst")
+            ctx.prove(again == "ok", "second-burst-failed", again)
+            ctx.prove(extra == [900], "second-burst-transmitted-old-commands",
+                      extra)
+            ctx.prove(len(second) == 1, "second-burst-callback-count",
+                      len(second))
+            # the monitor below looks at the first burst only
+            world.sent, world.now = first_sent, first_now
+            world.received, world.send_marks = first_received, first_marks
     ctx.witness(outcome)
     ctx.observe(outcome, len(world.sent), [c[0] for c in calls],
                 [s[0] for s in world.sent])
@@ -263,16 +293,18 @@ def units(tier, seed):
 
     def add(b, w, n, f, kinds, stale=False, seq0=0, split=0, wit=("ok",),
             via=False, multi=False, seq_mask=None, untimed=False,
-            payload=b""):
+            payload=b"", then_again=False):
         name = "burst=%d window=%d tries=%d faults=%d kinds=%s%s%s seq0=%#x%s%s%s" % (
             b, w, n, f, "+".join(kinds), " stale" if stale else "",
             " multi" if multi else "", seq0, " send_scp" if via else "",
             " seqmask=%#x untimed" % seq_mask if seq_mask is not None else "",
-            " payload" if payload else "")
+            (" payload" if payload else "") +
+            (" then a second burst" if then_again else ""))
         us.append(Unit(name, h_burst, dict(
             burst=b, window=w, n_tries=n, faults=f, kinds=kinds, stale=stale,
             seq0=seq0, via_send_scp=via, multi=multi, seq_mask=seq_mask,
-            untimed=untimed, payload=payload), split=split,
+            untimed=untimed, payload=payload, then_again=then_again),
+            split=split,
             witnesses=wit, path_timeout_s=40))
     OTF = ("ok", "timeout", "fatal")
     add(1, 1, 1, 1, ALL, wit=OTF, multi=True)
@@ -289,6 +321,8 @@ def units(tier, seed):
     add(2, 2, 2, 0, (), seq0=0xffff, split=6, wit=("ok", "timeout"))
     add(2, 2, 1, 2, LOSS, split=6, wit=("ok", "timeout"))
     add(2, 2, 1, 1, ("fatal", "retry", "dup"), split=6, wit=OTF)
+    add(2, 2, 1, 2, ("fatal", "lose_req", "lose_rep"), split=6,
+        wit=OTF + ("second-burst",), then_again=True)
     # the sequence counter wraps inside the burst (2-bit sequence space
     # through rig's own seqs(mask)): numbers still outstanding are skipped
     add(6, 3, 2, 0, (), split=6, wit=("ok",), seq_mask=3, untimed=True)
